@@ -26,7 +26,10 @@ pub fn parse_sack(s: &str) -> Option<SelectiveAck> {
 }
 
 pub fn digest(segs: &v::Segments, base: Instant) -> String {
-    let s = segs.verif_snapshot();
+    digest_snapshot(&segs.verif_snapshot(), base)
+}
+
+pub fn digest_snapshot(s: &v::VerifSegmentsSnapshot, base: Instant) -> String {
     let items: Vec<String> = s
         .segments
         .iter()
